@@ -51,7 +51,18 @@ func HarnessC11Cut() {
 	}
 	conn := newVconn(in)
 	conn.cut = vsymChoice("cut", len(in)+1)
-	conn.reset = vsymChoice("reset", 2) == 1
+	// how the stream ends: half-close (EOF), reset, or a peer that has also stopped reading (its
+	// receive side is shut down): from some reply on every write fails although the requests it had
+	// already sent can still be read
+	deaf := false
+	switch vsymChoice("reset", 3) {
+	case 1:
+		conn.reset = true
+	case 2:
+		conn.failWrite = vsymChoice("write-fails-from", R)
+		deaf = true
+		vsymCover("peer-stopped-reading")
+	}
 	err := server.receive(conn, nil)
 	_ = err
 	complete := 0
@@ -93,7 +104,7 @@ func HarnessC11Cut() {
 	replies, ok := vStrictStream(conn.out)
 	vsymAssert(ok, "reply-stream-well-formed")
 	if ok {
-		if conn.reset {
+		if conn.reset || deaf {
 			// writes may start failing once the peer has reset; replies written are for complete requests only
 			vsymAssert(len(replies) <= complete, "no-reply-for-incomplete-request")
 		} else {
